@@ -30,6 +30,11 @@ package main
 //   thorough — additionally de Bruijn walks through all ordered TRIPLES of 24 configurations
 //              (two size assignments), all ordered triples of the serial-import calls per grid,
 //              and 20 000 random histories of length ≤ 12.
+// Encode steps come in two forms: explicit options (DefaultOptions() + changes) and `enc:nil`
+// (webp.Encode with nil options) — the latter in the pair walks, in the mixed walk and in a walk of
+// its own through all ordered pairs of {animation encodes (lossy, lossless, mixed, one-frame),
+// enc:nil, explicit encodes}: "nil means DefaultOptions()" must not depend on what ran before.
+// A few pictures per run have threshold-crossing sizes (thresholds.go) with cheap content.
 // After every call all images / byte slices returned earlier in the walk window are re-hashed
 // (immutability).  A mismatch is shrunk by re-running candidate sub-histories in fresh child
 // processes (window doubling, then one-at-a-time removal) and reported with the literal call list.
@@ -81,7 +86,8 @@ type hcall struct {
 	Acls  int    `json:"acls,omitempty"`
 	ISeed uint64 `json:"iseed,omitempty"`
 	IType string `json:"itype,omitempty"` // enc: Go type of the image handed to Encode: "" = *image.NRGBA, "nrgba64", "paletted", "generic"
-	Opts  string `json:"opts,omitempty"`  // encOpts() wire form
+	Cheap int    `json:"cheap,omitempty"` // enc: 0 = GenImage(Cls, Acls); k+1 = GenCheapImage kind k (threshold-crossing sizes)
+	Opts  string `json:"opts,omitempty"`  // encOpts() wire form; "nil" = Encode is called with nil options
 	Anim  *hAnim `json:"anim,omitempty"`
 	Src   *hcall `json:"src,omitempty"` // producer of the bytes to decode (its fresh reference output)
 	Cut   int    `json:"cut,omitempty"` // dec: per-mille of the image chunk's payload kept; 0 = intact
@@ -236,14 +242,19 @@ func cutImageChunk(data []byte, permille int) []byte {
 }
 
 // generator images are inputs only; they are built once per (size, class, seed)
-var histImgCache = map[[5]uint64]*image.NRGBA{}
+var histImgCache = map[[6]uint64]*image.NRGBA{}
 
 func histImage(c *hcall) *image.NRGBA {
-	k := [5]uint64{uint64(c.W), uint64(c.H), uint64(c.Cls), uint64(c.Acls), c.ISeed}
+	k := [6]uint64{uint64(c.W), uint64(c.H), uint64(c.Cls), uint64(c.Acls), c.ISeed, uint64(c.Cheap)}
 	if im, ok := histImgCache[k]; ok {
 		return im
 	}
-	im := GenImage(NewRNG(c.ISeed, 0), c.W, c.H, c.Cls, c.Acls)
+	var im *image.NRGBA
+	if c.Cheap > 0 {
+		im = GenCheapImage(NewRNG(c.ISeed, 0), c.W, c.H, (c.Cheap-1)%NumCheapClasses, c.Acls)
+	} else {
+		im = GenImage(NewRNG(c.ISeed, 0), c.W, c.H, c.Cls, c.Acls)
+	}
 	histImgCache[k] = im
 	return im
 }
@@ -258,7 +269,7 @@ func histTyped(c *hcall) image.Image {
 	if c.IType == "" {
 		return src
 	}
-	k := fmt.Sprintf("%d|%d|%d|%d|%d|%s", c.W, c.H, c.Cls, c.Acls, c.ISeed, c.IType)
+	k := fmt.Sprintf("%d|%d|%d|%d|%d|%s|%d", c.W, c.H, c.Cls, c.Acls, c.ISeed, c.IType, c.Cheap)
 	if im, ok := histTypedCache[k]; ok {
 		return im
 	}
@@ -748,6 +759,50 @@ func (cf *hConfig) enc(seed uint64, w, h int) *hcall {
 	return &hcall{Op: "enc", W: w, H: h, Cls: cf.cls, Acls: cf.acls, ISeed: seed*1000 + uint64(w*64+h), IType: cf.itype, Opts: encOpts(cf.opts()), Tag: cf.tag}
 }
 
+// hEncNil: webp.Encode(w, picture, nil) — must behave like DefaultOptions() whatever ran before.
+func hEncNil(seed uint64, w, h, cls, acls int) *hcall {
+	return &hcall{Op: "enc", W: w, H: h, Cls: cls, Acls: acls, ISeed: seed*1000 + uint64(w*64+h), Opts: "nil", Tag: "nil"}
+}
+
+// hThresholdEncs: k encode calls on threshold-crossing sizes (thresholds.go) with cheap content,
+// alternating nil options / lossless / explicit lossy; recorded in the distribution.
+func hThresholdEncs(rep *Report, k int) []*hcall {
+	tcs := DrawThresholdCases(rep.Seed, 0x1157, k, ThresholdFilter{Units: []string{"width", "height", "pixels", "mbrows"}, MinValue: 200, MaxPixels: 70000})
+	var out []*hcall
+	for i, tc := range tcs {
+		r := NewRNG(rep.Seed, uint64(5600+i))
+		c := &hcall{Op: "enc", W: tc.W, H: tc.H, Cheap: 1 + r.Intn(NumCheapClasses), Acls: []int{AlphaNone, AlphaGradient, AlphaNone, AlphaBinary}[r.Intn(4)],
+			ISeed: rep.Seed*1000 + 5600 + uint64(i), Tag: "threshold-" + tc.String()}
+		switch i % 3 {
+		case 0:
+			c.Opts = "nil"
+		case 1:
+			c.Opts = encOpts(hOpt(func(o *webp.EncoderOptions) { o.Lossless, o.Quality, o.Method = true, 40, 2 })())
+		default:
+			c.Opts = encOpts(hOpt(func(o *webp.EncoderOptions) { o.Quality, o.Method, o.Partitions = 60, 3, 1 })())
+		}
+		out = append(out, c)
+		CountThreshold(rep, tc)
+	}
+	return out
+}
+
+// hAnimCalls: the animation encodes of the walks.  Frames == 1 goes through the one-frame still
+// path of Close (SimpleEncodeFunc), the others through the per-frame hook (FrameEncoderFunc).
+func hAnimCalls(seed uint64) []*hcall {
+	var out []*hcall
+	for ai, a := range []hAnim{{Frames: 3, Quality: 75}, {Frames: 4, Lossless: true, Quality: 90}, {Frames: 3, Quality: 60, Mixed: true, Kmax: 2},
+		{Frames: 1, Quality: 30}, {Frames: 1, Lossless: true, Quality: 75}, {Frames: 2, Quality: 10}} {
+		a := a
+		acls := AlphaNone
+		if ai > 0 && ai < 3 {
+			acls = AlphaBinary
+		}
+		out = append(out, &hcall{Op: "animenc", W: 32, H: 30, Cls: ClsPhoto, Acls: acls, ISeed: seed*1000 + 900 + uint64(ai), Anim: &a, Tag: fmt.Sprintf("anim%d", ai)})
+	}
+	return out
+}
+
 // ---------- walks ----------
 
 // eulerPairs returns a sequence over 0..n-1 in which every ordered pair (i,j), i≠j or i=j,
@@ -910,6 +965,9 @@ func histClass(last *hcall, hist []*hcall, lines []string) string {
 		o, _ := decOpts(last.Opts)
 		switch {
 		case o == nil:
+			if last.Opts == "nil" {
+				cls = "nil-options"
+			}
 		case o.Lossless && o.Quality > 75:
 			cls = "q>75"
 		case o.Lossless:
@@ -1094,6 +1152,7 @@ func suiteHistory(rep *Report) error {
 			}
 		}
 		calls = append(calls, histDecCalls(calls)...)
+		calls = append(calls, hEncNil(rep.Seed, g[0][0], g[0][1], ClsPhoto, AlphaNone), hEncNil(rep.Seed, g[1][0], g[1][1], ClsPhoto, AlphaGradient))
 		for k, ci := range []int{0, 2, 3, 6} { // lossy, lossy+alpha, partitions, alpha-quality: image chunk cut short
 			calls = append(calls, &hcall{Op: "dec", Src: calls[2*ci+k%2], Cut: []int{300, 900, 600, 950}[k]})
 		}
@@ -1114,6 +1173,7 @@ func suiteHistory(rep *Report) error {
 	}
 
 	// B. mixed walk: encodes, decodes, truncated files, header queries, animations, remux — random order
+	thrEncs := hThresholdEncs(rep, 3)
 	{
 		var pool []*hcall
 		r := NewRNG(rep.Seed, 5000)
@@ -1125,15 +1185,16 @@ func suiteHistory(rep *Report) error {
 				pool = append(pool, &hcall{Op: "dec", Src: e, Cut: 300 + 50*ci}, &hcall{Op: "dec", Src: e, Cut: 900})
 			}
 		}
-		for ai, a := range []hAnim{{Frames: 3, Quality: 75}, {Frames: 4, Lossless: true, Quality: 90}, {Frames: 3, Quality: 60, Mixed: true, Kmax: 2}} {
-			a := a
-			acls := AlphaNone
-			if ai > 0 {
-				acls = AlphaBinary
-			}
-			e := &hcall{Op: "animenc", W: 32, H: 30, Cls: ClsPhoto, Acls: acls, ISeed: rep.Seed*1000 + 900 + uint64(ai), Anim: &a, Tag: fmt.Sprintf("anim%d", ai)}
+		for _, e := range hAnimCalls(rep.Seed) {
 			pool = append(pool, e, &hcall{Op: "animdec", Src: e}, &hcall{Op: "remux", Src: e}, &hcall{Op: "cfg", Src: e})
 		}
+		// Encode with nil options (between animations and explicit encodes), and threshold-crossing sizes
+		for k := 0; k < 3; k++ {
+			sz := hGrids[k][k%2]
+			nilEnc := hEncNil(rep.Seed, sz[0], sz[1], []int{ClsPhoto, ClsNoise, ClsPal16}[k], []int{AlphaNone, AlphaGradient, AlphaBinary}[k])
+			pool = append(pool, nilEnc, nilEnc) // drawn twice as often
+		}
+		pool = append(pool, thrEncs...)
 		if err := hr.prefetch(pool); err != nil {
 			return err
 		}
@@ -1150,6 +1211,33 @@ func suiteHistory(rep *Report) error {
 			budget = 0
 		}
 		rep.CountN("walk:mixed", hr.walk("mixed", seq, budget, sigDone))
+	}
+
+	// B2. nil options after animations: an Euler circuit through ALL ordered pairs of
+	//     {6 animation encodes (lossy q75 / lossless / mixed / one frame lossy / one frame lossless /
+	//     lossy q10), 3 Encode calls with nil options, 2 with explicit options, 2 threshold-size encodes}
+	{
+		calls := hAnimCalls(rep.Seed)
+		calls = append(calls, hEncNil(rep.Seed, 32, 32, ClsPhoto, AlphaNone), hEncNil(rep.Seed, 30, 31, ClsPhoto, AlphaGradient), hEncNil(rep.Seed, 19, 17, ClsNoise, AlphaNone),
+			hConfigs[0].enc(rep.Seed, 32, 32), hConfigs[8].enc(rep.Seed, 30, 31))
+		calls = append(calls, thrEncs[:mini(2, len(thrEncs))]...)
+		if err := hr.prefetch(calls); err != nil {
+			return err
+		}
+		idx := eulerPairs(len(calls))
+		if thorough {
+			idx = append(idx, deBruijn3(len(calls))...)
+		}
+		seq := make([]*hcall, len(idx))
+		for i, k := range idx {
+			seq[i] = calls[k]
+		}
+		budget := 5 * time.Second
+		if thorough {
+			budget = 0
+		}
+		rep.CountN("walk:nil-after-anim", hr.walk("nil-after-anim", seq, budget, sigDone))
+		rep.CountN("nil-after-anim-pairs-covered", len(calls)*len(calls))
 	}
 
 	// B'. serial import path: per grid an Euler circuit through ALL ordered pairs of the
@@ -1238,6 +1326,10 @@ func suiteHistory(rep *Report) error {
 				}
 			}
 		}
+		pool = append(pool, hAnimCalls(rep.Seed)...)
+		for gi, g := range hGrids {
+			pool = append(pool, hEncNil(rep.Seed, g[gi%2][0], g[gi%2][1], ClsPhoto, []int{AlphaNone, AlphaGradient, AlphaBinary}[gi]))
+		}
 		if err := hr.prefetch(pool); err != nil {
 			return err
 		}
@@ -1264,7 +1356,7 @@ func suiteHistory(rep *Report) error {
 		rep.CountN("random-histories", nh)
 	}
 
-	rep.Rule = "calls are webp.Encode (24 option sets over quality/method/segments/partitions/SNS/filter/alpha/sharp/target, lossy and lossless) on generator images of sizes sharing a macroblock grid, larger-then-smaller and of different shape, webp.Decode/DecodeConfig/GetFeatures of the fresh outputs (intact and with a truncated image chunk), animation encode/decode and remux; lossy encodes on the serial import path (RGB->YUV dithering; image types generic wrapper, NRGBA64, Paletted) as alpha/opaque twins, all ordered pairs per macroblock grid; every call of every walk (all ordered pairs per grid; thorough: all ordered triples and 20000 random histories ≤ 12) is compared with the same call run first in a fresh process, and earlier results are re-hashed after every call. Distinct = distinct (walk, call, two predecessors) contexts."
+	rep.Rule = "calls are webp.Encode (24 option sets over quality/method/segments/partitions/SNS/filter/alpha/sharp/target, lossy and lossless, and Encode with NIL options - in the pair walks, the mixed walk and a walk through all ordered pairs of {6 animation encodes incl. one-frame and lossless ones, 3 nil-option encodes, 2 explicit ones, 2 threshold-size encodes}) on generator images (plus 3 pictures per run on threshold-crossing sizes of thresholds.go with cheap content, buckets threshold:*) of sizes sharing a macroblock grid, larger-then-smaller and of different shape, webp.Decode/DecodeConfig/GetFeatures of the fresh outputs (intact and with a truncated image chunk), animation encode/decode and remux; lossy encodes on the serial import path (RGB->YUV dithering; image types generic wrapper, NRGBA64, Paletted) as alpha/opaque twins, all ordered pairs per macroblock grid; every call of every walk (all ordered pairs per grid; thorough: all ordered triples and 20000 random histories ≤ 12) is compared with the same call run first in a fresh process, and earlier results are re-hashed after every call. Distinct = distinct (walk, call, two predecessors) contexts."
 	rep.Sample(map[string]any{"walk": "pairs-enc-grid0", "first_calls": []string{hConfigs[0].enc(rep.Seed, 32, 32).short(), hConfigs[1].enc(rep.Seed, 30, 31).short()}})
 	rep.Extra["reference_processes"] = hr.child
 	rep.Extra["shrink_s"] = hr.shrinkSpent.Seconds()
